@@ -49,7 +49,16 @@ def gen(rs: int, tier: str, index: int) -> dict:
         kn = dict(KNOBS, W=[0.05, 0.2, 0.2, 1.0], N=[None, None, 1, 2, 3], p_stop=0.85, p_sync=0.34, p_crash=0.0, workers=[1],
                   durations={"zero": 1, "tiny": 1, "short": 2, "medium": 4, "long": 5, "poll": 2})
     from ._wcommon import maybe_cli_entry
-    return maybe_cli_entry(gen_worker_script(rs, tier_knobs(kn, tier, index)), index, 7, 5)
+    s = maybe_cli_entry(gen_worker_script(rs, tier_knobs(dict(kn, p_warn_error=0.08), tier, index)), index, 7, 5)
+    from sim.rng import stream
+    r = stream(rs, "c02synctimeout")
+    for m in s["messages"]:
+        # a generous timeout label on a sync (thread-pool) task: it never fires, the worker only notes that it cannot enforce it
+        ts = s["tasks"][m["task"]] if isinstance(m.get("task"), int) else {}
+        if m.get("kind", "valid") == "valid" and ts.get("sync") and m.get("timeout") is None and r.random() < 0.4:
+            tot = max(sum(a.get("steps", [0])) for a in m.get("attempts", [{}])) if m.get("attempts") else 0
+            m["timeout"] = (tot + int(m.get("pool_delay_us", 0)) + 30_000_000) / 1e6
+    return s
 
 
 def oracle(script: dict, run: Any) -> List[Violation]:
